@@ -231,6 +231,8 @@ def run_check(prop, spec, tier, seed, replay=None):
     for k, v in ctx.extra_cov.items():
         if k != '_stats':
             cov[k] = v
+        else:
+            cov['offline_counters'] = dict(sorted(v.items()))
     core.write_evidence(prop, tier, seed, spec.get('level', 'exploration'), cov, spec.get('assumptions', []), wall, len(new_viol))
 
     print('%s tier=%s seed=%d: %d cases, %d distinct non-trivial, %d processes, %.1fs (build %.1fs)' % (prop, tier, seed, cov['evaluations'], cov['distinct_nontrivial'], col.procs, wall, build_s))
